@@ -57,6 +57,7 @@ def replay(rec: dict) -> bool:
 def run(ctx: Ctx):
     with lean_lock():
         ctx.extract("Acl", x_acl.emit)
+        ctx.extract("AclMatch", x_acl.emit_match)
         ctx.prove(MODULES, exes=[EXE], clean=False, leanchecker=ctx.thorough)
     ctx.cov["rule"] = ("cases = (surface in {python api, request api, Router.from_config}, implicit action, op sequence of "
                        "add/remove/check over a covering address/mask/port/protocol domain); a case is non-trivial when some check "
